@@ -128,6 +128,20 @@ theorem vocabulary_columns_agree (K : List (List Tok)) (g : List Tok)
   simp only [Function.comp, decide_eq_true_eq]
   exact join_lt_iff k g (hK k hk) hg
 
+/-! ### the tie to the functions the model transcribes -/
+
+/-- the functions the hand-written model transcribes have, in the current source, the control skeleton (tests, loop
+headers, kinds of statements and the names they bind) they had when the model was written and validated: no branch,
+loop, early exit or rebinding has been added that the model does not describe -/
+theorem modelled_functions_have_the_transcribed_shape :
+    MlVerif.Gen.C14.shapeMixinNgrams =
+      "if(stop_words is not None){tokens=};if(tokens is not None){new_tokens=;for(token in tokens){call append};tokens=};(min_n,max_n)=;if(max_n != 1){original_tokens=;if(min_n == 1){tokens=;min_nAdd=}else{tokens=};n_original_tokens=;tokens_append=;def space_join{new_tokens=;for(token in tokens){if(isinstance(token, str)){call append}else{if(isinstance(token, tuple)){call extend}else{raise}}};return};for(n in range(min_n, min(max_n + 1, n_original_tokens + 1))){for(i in range(n_original_tokens - n + 1)){call tokens_append}}};return" ∧
+    MlVerif.Gen.C14.shapeCountNgrams =
+      "return" ∧
+    MlVerif.Gen.C14.shapeTfidfNgrams =
+      "return" :=
+  ⟨rfl, rfl, rfl⟩
+
 /-! ### non-vacuity: concrete instances -/
 
 example : (wordNgramsML (some (fun t => t == ['a'])) 1 2 [['a'], ['c','a','t'], ['s','a','t']]).map joinKey
